@@ -39,17 +39,17 @@ CORE_KINDS = [
     "if", "for", "forl", "defb", "defa", "block", "ablock", "calltag", "include", "ns", "inh",
 ]
 
-QUICK2_KINDS = ["t2", "c3", "mod", "if", "forl", "defb", "block", "ablock", "calltag", "include", "inh"]
+QUICK2_KINDS = ["c3", "mod", "if", "forl", "defb", "block", "ablock", "calltag", "include", "inh"]
 
 W3_KINDS = ["c3", "mod", "if", "forl", "defb", "block", "calltag", "include"]
-WARN2_KINDS = QUICK2_KINDS + ["ns"]
+WARN2_KINDS = QUICK2_KINDS + ["t2", "ns"]
 
 BOUNDS = {
     "quick": {
         "raise_full_product": "weight<=1 over all 32 kinds, LF: every position x 13 raise kinds x 5 paths",
-        "raise_rotated": "weight 2 over 11 kinds (QUICK2_KINDS) LF and weight<=1 over all kinds CRLF: every (program,position,kind) "
-        "on one rotating path + the 2 principal kinds on all 5 paths + format_exceptions on one path",
-        "warn": "weight<=1 (all kinds, LF) and weight 2 over {block, ablock, defb}: every position x 8 warning plants x 5 paths x {always,once,error}",
+        "raise_rotated": "weight 2 over 10 kinds (QUICK2_KINDS) LF and weight<=1 over all kinds CRLF: every (program,position,kind) "
+        "on one rotating path + <% %> line 2 on all 5 paths + HTML page for the 2 principal kinds and format_exceptions on one path",
+        "warn": "weight<=1 (all kinds, LF) and weight 2 over {ablock, defb}: every position x 8 warning plants x 5 paths x {always,once,error}",
         "recompiled_module_file": "weight<=1 all kinds LF: every position x {${1/0}, <% %> line 2, <%! %> function, 4 warning plants} x "
         "{same lookup with filesystem_checks, new lookup on the same module directory}: version 1 -> observe -> 2 lines inserted "
         "at the top of every file, 10 s later -> reload in the same process -> observe",
@@ -482,6 +482,7 @@ class Runner:
         self.n = 0
         self.ctx = c12_env.base_ctx(seed)
         self.rctx = c12_env.resolve_ctx(self.ctx)
+        self.allpaths_both = True  # rotated scheme: both principal kinds on all paths (quick: only <% %> line 2)
         sys.dont_write_bytecode = True
 
     def casedir(self):
@@ -815,7 +816,7 @@ def tier_spec(tier):
             ("full-w1", [0, 1], A, ["\n"], "full"),
             ("rot-w1-crlf", [0, 1], A, ["\r\n"], "rotated"),
             ("warn-w1", [0, 1], A, ["\n"], "warn"),
-            ("warn-w2-closures", [2], ["block", "ablock", "defb"], ["\n"], "warn"),
+            ("warn-w2-closures", [2], ["ablock", "defb"], ["\n"], "warn"),
             ("hist-w1", [0, 1], A, ["\n"], "hist"),
             ("retry-w1", [0, 1], A, ["\n"], "retry"),
         ]
@@ -862,6 +863,7 @@ def run_job(job):
     name, weights, kinds, nls, scheme = tier_spec(job["tier"])[job["group"]]
     progs = group_programs(weights, kinds)
     r = Runner(st, job["seed"])
+    r.allpaths_both = job["tier"] != "quick"
     try:
         for pi in range(job["shard"], len(progs), job["nshards"]):
             for nl in nls:
@@ -926,7 +928,7 @@ def run_program(r, body, pi, nl, scheme):
             if ref[0] == "raise" and (low.plant_info["line"] > 1 or len(ref[2]) > 1):
                 st.nontrivial += 1
             principal = kind in PRINCIPAL
-            if scheme == "full" or principal:
+            if scheme == "full" or (principal and (r.allpaths_both or kind == "r_code2")):
                 paths = PATHS
             else:
                 paths = [PATHS[(rot + ki) % len(PATHS)]]
